@@ -4,7 +4,11 @@
     `hash_write_full_uncompressed(`) with its enclosing function and its class;
 (2) the repository file types whose `RepoFile::ENCRYPTED` is false;
 (3) the framing constants of Key::encrypt_data / decrypt_data and decrypt_file (nonce length,
-    overhead, marker bytes).
+    overhead, marker bytes);
+(4) what KeyFile::kdf_key (open) and KeyFile::generate (init / add_key) feed into scrypt as the
+    password argument, and that the password reaches them unchanged from Repository::open /
+    add_key_to_repo: the model's ideal KDF is a function of the password the user typed, so the
+    code must hand scrypt exactly `passwd.as_ref()`.
 A raw `.write_bytes(` call in a function that is not in the table below makes the extraction
 fail: a new place where bytes reach storage has to be classified by a human."""
 import os, re, sys
@@ -131,6 +135,44 @@ def gen(repo):
     bl = fn_body(dec, "encrypt_data")
     if "NonZeroU32::new(data_len)" not in bl:
         raise ExtractError("blob encrypt_data: uncompressed length no longer NonZeroU32::new(data_len)")
+    # (4) the password argument of scrypt
+    kfsrc = read(repo, "crates/core/src/repofile/keyfile.rs")
+
+    def first_arg(body, what):
+        i = body.find("scrypt::scrypt(")
+        if i < 0:
+            raise ExtractError(what + ": no scrypt::scrypt call")
+        j = i + len("scrypt::scrypt")
+        e = match_brace(body, j, "(", ")")
+        args, depth, cur = [], 0, ""
+        for ch in body[j + 1:e]:
+            if ch in "([{": depth += 1
+            if ch in ")]}": depth -= 1
+            if ch == "," and depth == 0:
+                args.append(" ".join(cur.split())); cur = ""
+            else:
+                cur += ch
+        args.append(" ".join(cur.split()))
+        return args
+
+    kdf_args = {"open": first_arg(fn_body(kfsrc, "kdf_key"), "kdf_key"),
+                "generate": first_arg(fn_body(kfsrc, "generate"), "generate")}
+    kdf_kind = {}
+    for k, a in kdf_args.items():
+        sig = fn_sig(kfsrc, "kdf_key" if k == "open" else "generate")
+        param_ok = re.search(r"passwd\s*:\s*&impl AsRef<\[u8\]>", sig) is not None
+        salt_ok = a[1] in ("&self.salt", "&salt")
+        kdf_kind[k] = "KdfPasswordBytes" if (a[0] == "passwd.as_ref()" and param_ok and salt_ok) else "KdfOther"
+    # the password travels unchanged: key_from_password -> kdf_key, key_from_backend / find_key_in_backend,
+    # Repository::open -> find_key_in_backend, add_key_to_repo -> KeyFile::generate
+    flow = [
+        ("key_from_password", fn_body(kfsrc, "key_from_password"), r"self\.kdf_key\(passwd\)"),
+        ("key_from_backend", fn_body(kfsrc, "key_from_backend"), r"\.key_from_password\(passwd\)"),
+        ("find_key_in_backend", fn_body(kfsrc, "find_key_in_backend"), r"key_from_backend\(be,\s*&id\.into\(\),\s*passwd\)"),
+        ("open_may_use_hot", fn_body(read(repo, "crates/core/src/repository.rs"), "open_may_use_hot"), r"find_key_in_backend\(&self\.be,\s*&password,\s*None\)"),
+        ("add_key_to_repo", fn_body(read(repo, "crates/core/src/commands/key.rs"), "add_key_to_repo"), r"KeyFile::generate\(key,\s*&pass,"),
+    ]
+    flow_ok = [(n, re.search(rx, b) is not None) for n, b, rx in flow]
     out = ["(* GENERATED by props/C04/extract.py from crates/core/src - do not edit *)",
            "From Verif.Base Require Import Tactics.",
            "From Verif.C04 Require Import Model.",
@@ -146,11 +188,20 @@ def gen(repo):
     out.append("  [ " + ";\n".join(r.strip() if i == 0 else r for i, r in enumerate(rows)) + " ].")
     out.append("")
     out.append("Definition unencrypted_types : list ftype := [%s]." % "; ".join(unenc))
+    out.append("")
+    out.append("(* password argument of scrypt::scrypt in KeyFile::kdf_key / KeyFile::generate: %s / %s *)" % (kdf_args["open"][0], kdf_args["generate"][0]))
+    out.append("Inductive kdf_input := KdfPasswordBytes | KdfOther.")
+    out.append("Definition x_kdf_input_open : kdf_input := %s." % kdf_kind["open"])
+    out.append("Definition x_kdf_input_generate : kdf_input := %s." % kdf_kind["generate"])
+    out.append("(* the password is handed on unchanged by: %s *)" % ", ".join("%s=%s" % (n, "yes" if ok else "NO") for n, ok in flow_ok))
+    out.append("Definition x_password_passed_unchanged : bool := %s." % ("true" if all(ok for _, ok in flow_ok) else "false"))
     hist = {}
     for _, _, _, c in sites:
         hist[c] = hist.get(c, 0) + 1
     return "\n".join(out) + "\n", {"sites": sites, "classes": hist, "unencrypted": unenc,
-                                   "nonce_len": nonce_len, "overhead": overhead}
+                                   "nonce_len": nonce_len, "overhead": overhead,
+                                   "kdf_password_argument": {k: a[0] for k, a in kdf_args.items()},
+                                   "password_flow": dict(flow_ok)}
 
 
 if __name__ == "__main__":
